@@ -16,6 +16,7 @@ RULE = ("series of 5..7 points on uniform and non-uniform grids, y in {0,1,3}^k 
 ASSUMPTIONS = ["FITPACK (scipy splrep) is a trusted black box inside its documented 0.1 % tolerance",
                "executions with a FITPACK warning are discarded, not judged (counted in counters.discarded_fitpack_warning)"]
 ANCHORS = {"process.py": [(217, 219)], "weaver.py": [(655, 656), (695, 695)]}
+FORMS_HARNESSES = "all"
 EXPLANATION = "smoothing-condition invariants evaluated on every element of a bounded lattice"
 SVALS = [0, 1e-4, 1e-2, 0.1, 1, 10, 100, None]
 
